@@ -47,6 +47,21 @@ class Cfg:
     msgs: str = "-"
     metadata_only: bool = False
 
+    def to_json(self) -> dict:
+        d = dict(self.__dict__)
+        d["data"] = self.data.hex()
+        d["dirs_d"] = list(self.dirs_d)
+        d["dfiles"] = [[p, x.hex()] for p, x in self.dfiles]
+        return d
+
+    @staticmethod
+    def from_json(d: dict) -> "Cfg":
+        d = dict(d)
+        d["data"] = bytes.fromhex(d["data"])
+        d["dirs_d"] = tuple(d.get("dirs_d", ()))
+        d["dfiles"] = tuple((p, bytes.fromhex(x)) for p, x in d.get("dfiles", ()))
+        return Cfg(**d)
+
     def remote_line(self) -> str:
         return (f"maxseg={self.maxseg} maxpkt={self.maxpkt} closure={self.closure} crc={self.crc} "
                 f"mode={self.mode} cks={self.cks} ack={self.ack} nak={self.nak} imm={self.imm} "
@@ -385,17 +400,18 @@ class Link:
         return (not st.ok) or st.state == "IDLE"
 
     # ------------------------------------------------------------------ the pump
-    def one_round(self):
+    def one_round(self, fair: bool = False):
         p, rng = self.pacing, self.rng
         self.round += 1
         self.res.rounds += 1
         for h in ("D", "S"):
             skip = p.skip_d if h == "D" else p.skip_s
-            if skip and rng.chance(skip):
+            if not fair and skip and rng.chance(skip):
                 continue
-            if not (p.hold and rng.chance(p.hold)):
+            if fair or not (p.hold and rng.chance(p.hold)):
                 self.deliver_ready(h)
-            for _ in range(p.idle_d if h == "D" else p.idle_s):
+            for _ in range(max(1, p.idle_d if h == "D" else p.idle_s) if fair else
+                           (p.idle_d if h == "D" else p.idle_s)):
                 self.sm(h)
                 self.drain(h)
 
@@ -413,12 +429,14 @@ class Link:
         quiet = 0
         while self.res.rounds < max_rounds:
             before = self.progress_sig()
-            self.one_round()
+            self.one_round(fair=quiet > 0)
             if self.idle("S") and self.idle("D") and self.in_flight() == 0:
                 return self.res
             if self.progress_sig() == before:
                 quiet += 1
-                if quiet >= 2:
+                # the clock only advances when the link is empty and a fair round (everything
+                # delivered, both sides called) changed nothing: time is not part of the pacing
+                if quiet >= 2 and self.in_flight() == 0:
                     if self.res.ticks >= max_ticks:
                         break
                     self.sess.tick(tick_ms)
